@@ -123,6 +123,24 @@ int main(int argc, char **argv)
 	if (!g_set || jwks_error(g_set) || jwks_error_any(g_set)) { fprintf(stderr, "cannot load keys\n"); return 2; }
 	g_nkeys = (int)jwks_item_count(g_set) / 2;
 	if (g_nkeys > MAXK) g_nkeys = MAXK;
+	/* THREADS_REF=file: the sequential reference comes from ANOTHER process (made with THREADS_REF_WRITE=1), so that the
+	 * threads' first calls are the first calls this process makes at all -- whatever the library sets up on first use
+	 * (per algorithm, per provider, per anything) is set up by the threads, concurrently */
+	const char *ref_path = getenv("THREADS_REF");
+	int ref_write = ref_path && getenv("THREADS_REF_WRITE");
+	if (ref_path && !ref_write) {
+		FILE *f = fopen(ref_path, "r");
+		static char line[1 << 16];
+		if (!f) { fprintf(stderr, "cannot read reference file\n"); return 2; }
+		for (int k = 0; k < g_nkeys; k++) g_deterministic[k] = is_det(jwks_item_alg(jwks_item_get(g_set, 2 * k)));
+		while (fgets(line, sizeof line, f)) {
+			int k, t; char tok[60000];
+			if (sscanf(line, "%d %d %59999s", &k, &t, tok) != 3 || k < 0 || k >= g_nkeys || t < 0 || t >= nthreads) continue;
+			if (!strcmp(tok, "-")) { if (t == 0) g_seq_fails[k] = 1; }
+			else g_ref_tok[k][t] = strdup(tok);
+		}
+		fclose(f);
+	} else
 	for (int k = 0; k < g_nkeys; k++) {
 		char err[256] = "";
 		g_deterministic[k] = is_det(jwks_item_alg(jwks_item_get(g_set, 2 * k)));
@@ -131,6 +149,13 @@ int main(int argc, char **argv)
 			if (!g_ref_tok[k][t] && t == 0) { g_seq_fails[k] = 1; break; }          /* e.g. ES256K under GnuTLS */
 			if (!g_ref_tok[k][t] || verify_one(k, g_ref_tok[k][t])) { fprintf(stderr, "sequential reference failed for key %d: %s\n", k, err); return 2; }
 		}
+	}
+	if (ref_write) {
+		FILE *f = fopen(ref_path, "w");
+		if (!f) return 2;
+		for (int k = 0; k < g_nkeys; k++) for (int t = 0; t < nthreads; t++) fprintf(f, "%d %d %s\n", k, t, g_ref_tok[k][t] ? g_ref_tok[k][t] : "-");
+		fclose(f);
+		return 0;
 	}
 	pthread_t th[MAXT];
 	/* the reference tokens were made with this keyring; the threads get fresh ones */
